@@ -221,7 +221,7 @@ func (g *FnGen) doCall(ci ssa.CallInstruction, v ssa.Value) {
 		rt := sig.Results().At(i).Type()
 		var rv Val
 		if ct != nil && ct.Pure {
-			rv = g.pureResult(name, i, rt, recv, args)
+			rv = g.pureResultMem(ct, env, name, i, rt, recv, args)
 		} else if ct != nil && ct.Fresh && i == 0 && g.D.sortOf(rt) == sortRef {
 			rv = Val{T: g.allocRef("res_"+sanitize(name), guard), S: sortRef, Go: rt}
 		} else {
@@ -706,6 +706,9 @@ func (g *FnGen) finish() {
 		g.st = r.st
 		g.checkTypeInvsAtReturn(k, r)
 	}
+	if g.C != nil && len(g.C.ReturnAsserts) > 0 {
+		g.checkReturnAsserts()
+	}
 	if g.C == nil || len(g.C.Ensures) == 0 || len(g.rets) == 0 {
 		return
 	}
@@ -943,4 +946,82 @@ func (g *FnGen) checkCalleeGhost(ci ssa.CallInstruction, key string) {
 		}
 	}
 	g.oblige("assigns", g.siteNames[ci]+":callee-writes:"+key, g.curGuard, "false", "callee writes ghost state "+key+", which the assigns clause does not permit", ci.Pos())
+}
+
+// pureResultMem: the uninterpreted function of a pure callee takes, besides the arguments, the
+// backing arrays of the slices the contract says it reads.
+func (g *FnGen) pureResultMem(ct *Contract, env map[string]Val, name string, i int, rt types.Type, recv *Val, args []Val) Val {
+	if len(ct.PureReads) == 0 {
+		return g.pureResult(name, i, rt, recv, args)
+	}
+	extra := append([]Val{}, args...)
+	for _, pn := range ct.PureReads {
+		v, ok := env[pn]
+		if !ok || v.S != sortSlice {
+			efail("reads mem(%s): not a slice parameter of %s", pn, name)
+		}
+		et := v.Go.Underlying().(*types.Slice).Elem()
+		k := g.D.memKeyT(et)
+		extra = append(extra, Val{T: sel(g.D.get(g.st, k), "(s_base "+v.T+")"), S: fmt.Sprintf("(Array (_ BitVec 64) %s)", g.D.sortOf(et))})
+	}
+	return g.pureResult(name, i, rt, recv, extra)
+}
+
+// checkReturnAsserts: "at return assert" clauses may mention source-level locals; each is checked at
+// every return site where all its identifiers are in scope, and must apply to at least one.
+func (g *FnGen) checkReturnAsserts() {
+	sig := g.fn.Signature
+	applied := map[string]int{}
+	for k, r := range g.rets {
+		env := map[string]Val{}
+		for n, v := range g.env {
+			env[n] = v
+		}
+		g.curBlock, g.curIdx = r.block, r.idx
+		for n, v := range g.localsNow() {
+			env[n] = v
+		}
+		var rs []Val
+		for i := range r.results {
+			rv := r.results[i]
+			rv.Go = sig.Results().At(i).Type()
+			rs = append(rs, rv)
+		}
+		resultEnv(env, sig, rs)
+		g.st = r.st
+		for i, c := range g.C.ReturnAsserts {
+			label := clauseLabel(c, i)
+			ok := func() (ok bool) {
+				defer func() {
+					if e := recover(); e != nil {
+						if _, isEval := e.(evalError); isEval {
+							ok = false
+							return
+						}
+						panic(e)
+					}
+				}()
+				nItems, nObs := len(g.items), len(g.obs)
+				ctx := &EvalCtx{g: g, env: env, st: r.st, oldSt: g.entrySt, oldEnv: g.env, guard: r.guard}
+				func() {
+					defer func() {
+						if e := recover(); e != nil {
+							g.items, g.obs = g.items[:nItems], g.obs[:nObs]
+							panic(e)
+						}
+					}()
+					g.obligeClause("assert", fmt.Sprintf("return:%s@ret%d", label, k+1), r.guard, c, ctx, r.pos)
+				}()
+				return true
+			}()
+			if ok {
+				applied[label]++
+			}
+		}
+	}
+	for i, c := range g.C.ReturnAsserts {
+		if applied[clauseLabel(c, i)] == 0 {
+			efail("at-return assertion %q is in scope at no return of %s (contract drift)", clauseLabel(c, i), g.name)
+		}
+	}
 }
